@@ -16,7 +16,7 @@ import time
 VERIF = os.path.dirname(os.path.dirname(os.path.dirname(os.path.abspath(__file__))))
 REPO = os.environ.get('X86_REPO', '/repo')
 DRV = os.path.join(VERIF, 'engine', 'x86facts', 'target', 'release', 'drv')
-CACHE = os.path.join(VERIF, '.cache')
+CACHE = os.path.join(VERIF, '.cache') if REPO == '/repo' else os.path.join(VERIF, '.cache', 'scratch')
 
 CONFIGS = {
     # name: (cargo feature args, extra RUSTFLAGS)
